@@ -224,6 +224,21 @@ pub fn audit(ex: &mut Exec) -> R<()> {
     if ex.audits.gc_stats {
         let recorded = frag_map(v.gc_stats());
         let mut partial = false;
+        // "a blob file leaves the version exactly when nothing points into it any more": both merge
+        // flavours drop every file that is dead by the statistics of the version they start from
+        if ex.merge_happened {
+            for id in &ex.dead_blob_files {
+                if file_ids.contains(id) {
+                    return Err(format!(
+                        "blob file {id} had no reference left before this merging compaction (and its recorded garbage said so) but it is still part of the version"
+                    ));
+                }
+            }
+            if !ex.dead_blob_files.is_empty() {
+                ex.stats.bump("blob.dead_file_dropped_by_merge");
+            }
+        }
+        let mut dead_now = vec![];
         for (fid, frames) in &files {
             let tot = (
                 frames.len() as u64,
@@ -246,6 +261,7 @@ pub fn audit(ex: &mut Exec) -> R<()> {
             }
             if r.0 == 0 {
                 ex.stats.bump("blob.fully_dead_file_in_version");
+                dead_now.push(*fid);
             }
         }
         let sum: u64 = recorded.values().map(|e| e.2).sum();
@@ -258,6 +274,7 @@ pub fn audit(ex: &mut Exec) -> R<()> {
         if partial {
             ex.stats.bump("blob.partial_garbage");
         }
+        ex.dead_blob_files = dead_now;
     }
     // relocation / drop classification
     let prev: Vec<u64> = ex
